@@ -431,7 +431,9 @@ def c38(ctx):
             if o["errs"] != e["errs"]:
                 return ("pam:errors", "ParsePeerAddressMap(%s) reported %d errors, spec says %d" % (i["g"], o["errs"], e["errs"]))
             return None
-        if o["accept"] != e["accept"]:
+        if k == "tptaddr" and o.get("roundtrip") is False:
+            return ("tptaddr:roundtrip:%s" % i.get("c"), "an accepted transport address has an empty component or does not re-parse to itself (class %s)" % i.get("c"))
+        if e["accept"] != "dc" and o["accept"] != e["accept"]:
             return ("%s:%s:%s" % (k, i.get("c") or "-".join(i.get("g", [])) or "empty", "accepted" if o["accept"] else "rejected"),
                     "%s parser accept=%s, spec says %s for %s" % (k, o["accept"], e["accept"], i))
         if k == "proto" and not (o["consistent"] and o["allowempty_ok"]):
